@@ -11,6 +11,10 @@
 (declare-const k Int)
 (assert (not (=> (and (<= 0 i) (< i D) (<= D 1024) (<= 1 b) (<= b 1048576) (<= 0 k) (<= k b) (= n (* D (+ b 1))))
                  (and (< (+ (* i (+ b 1)) k) n) (< n 18446744073709551616) (< (* i (+ b 1)) 18446744073709551616)))))
+; @obligation L-adj-index slot of (dimension j, bin c) lies inside the adjustment data: j < D, c < b  ==>  j*b + c < D*b <= 2^30, nothing wraps
+(declare-const c Int)
+(assert (not (=> (and (<= 0 i) (< i D) (<= 1 D) (<= D 1024) (<= 1 b) (<= b 1048576) (<= 0 c) (< c b))
+                 (and (< (+ (* i b) c) (* D b)) (<= (* D b) 1099511627776)))))
 ; @obligation L-fold-mul adding d once per call is multiplication: (i+1)*d = i*d + d (step of the ghost fold used for C10.total)
 (declare-const d Int)
 (assert (not (= (* (+ i 1) d) (+ (* i d) d))))
